@@ -145,10 +145,12 @@ pub fn run_case(sc: &Scenario, mode: &Mode) -> CaseOut {
     let opts = Opts {
         monitors: true,
         probes: mode.probes_c20,
+        batch: 0,
     };
     let plain = Opts {
         monitors: true,
         probes: false,
+        batch: 0,
     };
     let mut w = World::new(sc);
     let mut w15 = if mode.twin_c15 && sc.cfg.stamps {
@@ -384,7 +386,7 @@ pub fn run_case(sc: &Scenario, mode: &Mode) -> CaseOut {
                 for style in [false, true] {
                     let mut wa = pre.clone();
                     let mut pa = plan.clone();
-                    pa.abort = Some((k as u16, style));
+                    pa.abort = Some((k as u32, style));
                     let ra = safe_eval(&mut wa, &pa, &plan.sched, &plain);
                     out.evals += 1;
                     out.count("abort_points");
@@ -497,7 +499,7 @@ pub fn run_case(sc: &Scenario, mode: &Mode) -> CaseOut {
 /// human readable trace of a scenario (development / triage aid)
 pub fn trace_case(sc: &Scenario) -> String {
     let mut s = String::new();
-    let opts = Opts { monitors: true, probes: false };
+    let opts = Opts { monitors: true, probes: false, batch: 0 };
     let mut w = World::new(sc);
     s.push_str(&format!("config {:?}\n", sc.cfg));
     for (i, step) in sc.steps.iter().enumerate() {
